@@ -15,6 +15,7 @@ ENGINES = [
 ]
 
 HARNESSES = {
+    'C01': [dict(name='c01_geometric', src=['C01_geometric.cpp'], flavour='asan')],
     'C09': [dict(name='c09_copy', src=['C09_copy.cpp'], flavour='asan')],
     'C08': [dict(name='c08_bounds', src=['C08_bounds.cpp'], flavour='asan')],
     'C07': [dict(name='c07_interp', src=['C07_interp.cpp'], flavour='asan')],
@@ -35,7 +36,17 @@ HBFS_NOTE = ('Trusted: the harness reference model and canonical dump (read with
 LPE_NOTE = ('Trusted: the harness oracles (independent long-double reference distances, law formulas), the stated tolerances, g++/ASan build of libompl. '
             'Bounded-exhaustive over the lattice alphabets listed in evidence.bounds; silent about real values off the lattice.')
 
+DBE_NOTE = ('Trusted: the choice oracle (hook H1 + sampler-allocator seam) really owns all randomness (replay-twice gate on every configuration), the harness path oracle, '
+            'g++/ASan build of libompl. Bounded: deviation bound D over the first N choice points, lattice samples, the listed worlds/configurations; silent beyond.')
+
 PROPERTY_META = {
+    'C01': dict(
+        deadline_quick=420, deadline_thorough=1700, engine='E1-DBE', design_ref='5/C01',
+        technique='deviation-bounded exhaustive exploration of every random answer and state sample of the real planners (choice oracle), independent dense path oracle on every execution',
+        level_text='33 single-threaded geometric planners x 16+ configurations (9 maps incl. corner-cut diagonal, U-trap, corridor, enclosed goal, obstacle on start/goal; R^2, SE(2), Dubins, '
+                   'Reeds-Shepp; goal state/states/unsampleable region; thresholds, ranges, resolutions): every execution with <= D deviations among the first N choice points plus the full '
+                   'product over the first state samples, each on fresh objects with termination at a fixed evaluation index; crashes/hangs isolated in forked children and replayed alone.',
+        level_note=DBE_NOTE),
     'C08': dict(
         deadline_quick=300, deadline_thorough=1500, engine='E1-DBE', design_ref='5/C08',
         technique='exhaustive products of boundary-value inputs for enforceBounds; for every sampler call, full product of oracle answers over the first draws plus all <=2-deviation answer streams (RNG hook H1)',
